@@ -768,7 +768,7 @@ def run_hourly_case(run, kit, case, pz, state_policy, terms, meta):
     base_days = skel[first]
     # ---- Coq: which record of a repeated stamp the data class kept (stream ds)
     for n in names:
-        if n in raw and "interpolated_temperature" in obs[n]["df_in"].columns:
+        if n in raw and n in ("orig", "shuffled", "zeros30", "times0", "allnan") and "interpolated_temperature" in obs[n]["df_in"].columns:
             DS_TERMS.append(coq_ds(DEDUP["z"], DEDUP["zero"], electric, raw[n], obs[n]["df_in"]))
             DS_META.append(dict(case, variant=n))
     run.dist("hourly_duplicated_stamps", int(rep.index.duplicated().sum()))
@@ -816,7 +816,7 @@ def run_hourly_case(run, kit, case, pz, state_policy, terms, meta):
     # ---- Coq: the cluster labels each run used, against cluster_stage
     for n in names:
         lbl = obs[n].get("labels")
-        if lbl is None or not obs[n]["ok"]:
+        if lbl is None or not obs[n]["ok"] or n in ("scaled", "negated", "nan30", "times0"):
             continue
         if lbl == "ambiguous":
             run.corr_failures.append({"stream": "labels", "case": case, "variant": n, "impl": "two labels for one (month, weekday)"})
@@ -1192,7 +1192,7 @@ def main():
     table_after_stream(run, kits[0], state_policy, run.n(6, 40))
     calendar_repair_stream(run, kits[0], run.n(8, 60))
     run.log("hourly done")
-    daily_stream(run, [gen_daily_case(run.rng, k) for k in range(run.n(100, 2000))])
+    daily_stream(run, [gen_daily_case(run.rng, k) for k in range(run.n(80, 2000))])
     subdaily_stream(run, [c for c in corpus if c.get("stream") == "subdaily"] +
                     [gen_subdaily_case(run.rng, k) for k in range(run.n(14, 300))])
     run.log("daily/billing synthetic done")
@@ -1200,7 +1200,7 @@ def main():
                [(k, run.rng.randrange(2**31)) for k in ["daily", "billing"] * 4])
     run.log("fitted daily/billing done")
     for i in range(run.n(1, 3)):
-        caltrack_stream(run, seeds[4] + i, run.n(10, 30))
+        caltrack_stream(run, seeds[4] + i, run.n(8, 30))
     run.finish()
 
 
